@@ -283,9 +283,16 @@ def levelsCompatible (t : Tbl) (vs : List (String × Nat)) : Bool :=
       | none => true
       | some v' => v' == var
 
+/-- `sorted(var2level.values()) == list(range(n))`: the levels of the file are a permutation
+of `0..n-1` -/
+def levelsPermutation (vs : List (String × Nat)) : Bool :=
+  sortNat (vs.map (·.2)) == List.range vs.length
+
 /-- `dd.bdd.BDD.load(filename, levels)` on the content of the file -/
 def loadPickle (f : PickleFile) (levels : Bool) : M Roots := fun m =>
-  -- `if levels:` refuse before declaring anything (a refusal half-way would leave a gap)
+  -- `if levels:` refuse before declaring anything (a refusal half-way would leave a gap):
+  -- the file's own levels, then each pair against the manager
+  if levels && !levelsPermutation f.vars then (.error .value, m) else
   if levels && !levelsCompatible m.tbl f.vars then (.error .value, m) else
   match loadVars levels f.vars.length f.vars [] m with
   | (.error e, m1) => (.error e, m1)
